@@ -3,6 +3,8 @@ import MosnVerif.Lemmas.Retry
 import MosnVerif.Lemmas.RouteFinalize
 import MosnVerif.Lemmas.HeaderWiring
 import MosnVerif.Lemmas.RetryPolicy
+import MosnVerif.Lemmas.HeaderMaps
+import MosnVerif.Lemmas.PerTryArm
 /-!
 # C17 — route actions, timeouts and the retry policy are applied exactly as configured (property theorems only)
 
@@ -644,5 +646,356 @@ example : (parseProxyTimeout (fun _ => none) 0 0 true 5000000000 (accessors (gua
 example : attemptCount (run (machinePolicy (accessors (guardedBuild (some exCfgOff))) 0 false) (some 0) (exFails 8)).trace = 4 := by decide
 
 end PolicyBuild
+
+/-! ## Part 6 [c17h10] — header mutations over the REAL protocol header maps
+
+`Model/HeaderMaps.lean`: the interface `HMap` (get / set / add / del + range, names identified through `norm`) with the
+instances `common` (protocol.CommonHeader), `fh kind` (HTTP/1: fasthttp request / response header behind MOSN's wrapper),
+`h2` (HTTP/2: net/http.Header), `bolt` (xprotocol key-value list with its `Changed` flag); `evaluateHeaders` regenerated
+statement by statement (`Gen.HeaderEval`: which of Get / Set / Del is called with which name and value under which
+condition), the wiring table and the level order regenerated as before. -/
+section HeaderMapsPart
+open MosnVerif.Model.HeaderMaps MosnVerif.Model.HeaderWiring MosnVerif.Gen.HeaderWiring
+
+/-- **mutation_spec_generic**: for EVERY header map that satisfies `HeaderMapLaws` (for an observation `obs` of it: what
+`Get` answers, or the first value the printed header shows), every three-level mutation configuration whose names the laws
+cover, every well-formed initial map and every header name: after `Finalize{Request,Response}Headers` the observation of
+that header is — up to blank (absent = present-but-empty) — the fold, in the order route → virtual host → router
+configuration, additions then removals within a level, of exactly the mutations whose name the map identifies with it, by
+the documented rule (`stepVal`: append joins with "," onto a non-empty value, otherwise overwrite; removal deletes).
+`headers_spec_request/response` are the instance `common` (exact, see `mutation_spec_generic_strict`). -/
+theorem mutation_spec_generic {M : Type} (I : HMap M) (Inv : M → Prop) (ok : String → Prop) (obs : M → String → Option String)
+    (L : HeaderMapLaws I Inv ok obs) (l : Levels) (m : M) (hm : Inv m) (hok : ∀ o ∈ specOps l, ok o.key) (k : String) :
+    BlankEq (obs (Model.HeaderMaps.finalize I requestOrder l m) k) (specValueN I.norm (specOps l) k (obs m k)) ∧
+    BlankEq (obs (Model.HeaderMaps.finalize I responseOrder l m) k) (specValueN I.norm (specOps l) k (obs m k)) := by
+  have h1 : requestOrder = [.route, .vhost, .router] := by decide
+  have h2 : responseOrder = [.route, .vhost, .router] := by decide
+  rw [h1, h2, Model.HeaderMaps.finalize_eq_ops]
+  exact ⟨obs_foldl_ops L _ m k hm hok, obs_foldl_ops L _ m k hm hok⟩
+
+/-- **mutation_spec_generic_strict**: under the exact laws (reading back gives exactly the value set, nothing after a
+removal) the observation after the mutations EQUALS the reference -/
+theorem mutation_spec_generic_strict {M : Type} (I : HMap M) (Inv : M → Prop) (ok : String → Prop) (obs : M → String → Option String)
+    (L : HeaderMapLawsStrict I Inv ok obs) (l : Levels) (m : M) (hm : Inv m) (hok : ∀ o ∈ specOps l, ok o.key) (k : String) :
+    obs (Model.HeaderMaps.finalize I requestOrder l m) k = specValueN I.norm (specOps l) k (obs m k) ∧
+    obs (Model.HeaderMaps.finalize I responseOrder l m) k = specValueN I.norm (specOps l) k (obs m k) := by
+  have h1 : requestOrder = [.route, .vhost, .router] := by decide
+  have h2 : responseOrder = [.route, .vhost, .router] := by decide
+  rw [h1, h2, Model.HeaderMaps.finalize_eq_ops]
+  exact ⟨obs_foldl_ops_strict L _ m k hm hok, obs_foldl_ops_strict L _ m k hm hok⟩
+
+/-- **mutation_spec_from_config**: the same for a rule built by `router.NewRouters` FROM CONFIGURATION (regenerated wiring
+table, nil-parser rule and level order) on any lawful protocol map: only that direction's fields count -/
+theorem mutation_spec_from_config {M : Type} (I : HMap M) (Inv : M → Prop) (ok : String → Prop) (obs : M → String → Option String)
+    (L : HeaderMapLaws I Inv ok obs) (c : Config) (d : Dir) (m : M) (hm : Inv m)
+    (hok : ∀ o ∈ specOps (dirLevels c d), ok o.key) (k : String) :
+    BlankEq (obs (finalizeBuilt I c d m) k) (specValueN I.norm (specOps (dirLevels c d)) k (obs m k)) := by
+  rw [finalizeBuilt_eq, orderOf_eq, Model.HeaderMaps.finalize_eq_ops]
+  exact obs_foldl_ops L _ m k hm hok
+
+/-- untouched_preserved, generic: a header no configured mutation names (in the map's normal form) keeps its observation -/
+theorem untouched_preserved_generic {M : Type} (I : HMap M) (Inv : M → Prop) (ok : String → Prop) (obs : M → String → Option String)
+    (L : HeaderMapLaws I Inv ok obs) (l : Levels) (m : M) (hm : Inv m) (hok : ∀ o ∈ specOps l, ok o.key) (k : String)
+    (hk : ∀ o ∈ specOps l, I.norm o.key ≠ I.norm k) :
+    BlankEq (obs (Model.HeaderMaps.finalize I requestOrder l m) k) (obs m k) := by
+  have h := (mutation_spec_generic I Inv ok obs L l m hm hok k).1
+  have : (specOps l).filter (fun o => I.norm o.key == I.norm k) = [] := by
+    rw [List.filter_eq_nil_iff]; intro o ho; simpa using hk o ho
+  unfold specValueN at h
+  rw [this] at h
+  exact h
+
+/-- removed_absent, generic: if the last mutation naming `k` is a removal, the header is absent (or, on a map that cannot
+tell, empty) -/
+theorem removed_absent_generic {M : Type} (I : HMap M) (Inv : M → Prop) (ok : String → Prop) (obs : M → String → Option String)
+    (L : HeaderMapLaws I Inv ok obs) (l : Levels) (m : M) (hm : Inv m) (hok : ∀ o ∈ specOps l, ok o.key) (k r : String)
+    (pre post : List Op) (hr : I.norm r = I.norm k)
+    (hs : specOps l = pre ++ [.remove r] ++ post) (hpost : ∀ o ∈ post, I.norm o.key ≠ I.norm k) :
+    isBlank (obs (Model.HeaderMaps.finalize I requestOrder l m) k) = true := by
+  have h := (mutation_spec_generic I Inv ok obs L l m hm hok k).1
+  have hp : post.filter (fun o => I.norm o.key == I.norm k) = [] := by
+    rw [List.filter_eq_nil_iff]; intro o ho; simpa using hpost o ho
+  unfold specValueN at h
+  rw [hs, List.filter_append, List.filter_append, hp, List.append_nil, List.foldl_append] at h
+  simp only [List.filter_cons, Op.key, hr, beq_self_eq_true, if_true, List.filter_nil, List.foldl_cons, List.foldl_nil, stepVal] at h
+  rcases h with h | ⟨h, _⟩
+  · rw [h]; rfl
+  · exact h
+
+/-- overwrite_last, generic: if the last mutation naming `k` is an addition with append=false, the header has exactly the
+configured value (when that value is not empty; an empty one may show as absent) -/
+theorem overwrite_last_generic {M : Type} (I : HMap M) (Inv : M → Prop) (ok : String → Prop) (obs : M → String → Option String)
+    (L : HeaderMapLaws I Inv ok obs) (l : Levels) (m : M) (hm : Inv m) (hok : ∀ o ∈ specOps l, ok o.key) (a : Add)
+    (pre post : List Op) (ha : a.append = false) (hv : a.value ≠ "")
+    (hs : specOps l = pre ++ [.add a] ++ post) (hpost : ∀ o ∈ post, I.norm o.key ≠ I.norm a.name) :
+    obs (Model.HeaderMaps.finalize I requestOrder l m) a.name = some a.value := by
+  have h := (mutation_spec_generic I Inv ok obs L l m hm hok a.name).1
+  have hp : post.filter (fun o => I.norm o.key == I.norm a.name) = [] := by
+    rw [List.filter_eq_nil_iff]; intro o ho; simpa using hpost o ho
+  unfold specValueN at h
+  rw [hs, List.filter_append, List.filter_append, hp, List.append_nil, List.foldl_append] at h
+  have hx : ∀ v, stepVal v (.add a) = some a.value := by intro v; cases v <;> simp [stepVal, ha]
+  simp only [List.filter_cons, Op.key, beq_self_eq_true, if_true, List.filter_nil, List.foldl_cons, List.foldl_nil, hx] at h
+  exact h.eq_of_nonblank (isBlank_some_ne hv)
+
+/-! ### the instances satisfy the laws -/
+
+/-- protocol.CommonHeader: exact laws, every name, every map, observation = `Get` -/
+theorem common_header_laws : HeaderMapLawsStrict common (fun _ => True) (fun _ => True) Model.Headers.get := common_laws
+
+/-- HTTP/2 (net/http.Header): exact laws for the first value held under a name (every name, every map, repeated values
+included); `Get` agrees with it up to blank -/
+theorem http2_header_laws : HeaderMapLawsStrict h2 (fun _ => True) (fun _ => True) h2First := h2_laws
+
+/-- bolt: exact laws, every name, on frames without a repeated key (kept by `Set` and `Del`); observation = `Get` -/
+theorem bolt_header_laws : HeaderMapLawsStrict bolt boltNoDup (fun _ => True) boltGet := bolt_laws
+
+/-- HTTP/1 (fasthttp request and response header): the laws for every PLAIN name — every name but the cookie header
+(`Set` adds), the names fasthttp swallows (Transfer-Encoding, Date) and the unmodelled framing names (Content-Length,
+Connection, Trailer) —, mixed-case spellings and dedicated fields (Host / Content-Type / User-Agent resp. Content-Type /
+Content-Encoding / Server) included; the one inexact law: a dedicated field SET TO THE EMPTY VALUE is not printed -/
+theorem fasthttp_header_laws (kind : FhKind) :
+    HeaderMapLaws (fh kind) (fhInv kind) (fun k => fhPlain kind k = true) (fhObs kind) := fh_laws kind
+
+/-- the fasthttp observation is what the printed header (VisitAll, and the re-parsed wire text) shows first under the name -/
+theorem fasthttp_obs_is_printed (kind : FhKind) (m : Fh) (k : String) (hi : fhInv kind m) (h : fhPlain kind k = true) :
+    look (fh kind) m k = fhObs kind m k := fh_look_eq_obs kind m k hi h
+
+/-- **fasthttp_mutation_spec**: HTTP/1, rule built from configuration: the first line the printed header shows under any
+plain name after the hop = the reference over the mutations of that direction whose (case-insensitively, `Foo-Bar`
+normalised) name it is -/
+theorem fasthttp_mutation_spec (kind : FhKind) (c : Config) (d : Dir) (m : Fh) (hm : fhInv kind m)
+    (hok : ∀ o ∈ specOps (dirLevels c d), fhPlain kind o.key = true) (k : String) (hk : fhPlain kind k = true) :
+    BlankEq (look (fh kind) (finalizeBuilt (fh kind) c d m) k) (specValueN fhNorm (specOps (dirLevels c d)) k (look (fh kind) m k)) := by
+  have hinv : fhInv kind (finalizeBuilt (fh kind) c d m) := by
+    rw [finalizeBuilt_eq, orderOf_eq, Model.HeaderMaps.finalize_eq_ops]
+    generalize specOps (dirLevels c d) = ops at hok
+    induction ops generalizing m with
+    | nil => exact hm
+    | cons o r ih =>
+      exact ih _ (inv_applyOp (fh_laws kind) m o hm (hok o (List.mem_cons_self ..))) (fun o' ho' => hok o' (List.mem_cons_of_mem _ ho'))
+  rw [fh_look_eq_obs kind _ k hinv hk, fh_look_eq_obs kind m k hm hk]
+  exact mutation_spec_from_config (fh kind) _ _ _ (fh_laws kind) c d m hm hok k
+
+/-- HTTP/2 and bolt, rule built from configuration: exact -/
+theorem http2_mutation_spec (c : Config) (d : Dir) (m : H2) (k : String) :
+    h2First (finalizeBuilt h2 c d m) k = specValueN h2Norm (specOps (dirLevels c d)) k (h2First m k) := by
+  rw [finalizeBuilt_eq, orderOf_eq, Model.HeaderMaps.finalize_eq_ops]
+  exact obs_foldl_ops_strict h2_laws _ m k trivial (fun _ _ => trivial)
+
+theorem bolt_mutation_spec (c : Config) (d : Dir) (m : Bolt) (hm : boltNoDup m) (k : String) :
+    boltGet (finalizeBuilt bolt c d m) k = specValueN id (specOps (dirLevels c d)) k (boltGet m k) := by
+  rw [finalizeBuilt_eq, orderOf_eq, Model.HeaderMaps.finalize_eq_ops]
+  exact obs_foldl_ops_strict bolt_laws _ m k hm (fun _ _ => trivial)
+
+/-! ### repeated values, cookies, the bolt `Changed` flag: exact statements and the stated exceptions -/
+
+/-- overwrite on fasthttp leaves ONE line with the configured value however many lines of the name arrived (since fix
+4b5fb7c1c; `Set` alone replaces only the first: witness below) -/
+theorem fasthttp_overwrite_one_line (kind : FhKind) (m : Fh) (a : Add) (ha : a.append = false)
+    (h : fhPlain kind a.name = true) (hs : kind.singles.contains (fhNorm a.name) = false) :
+    fhLines (applyAdd (fh kind) m a) (fhNorm a.name) = [a.value] := fh_overwrite_one_line kind m a ha h hs
+
+/-- overwrite on net/http.Header leaves exactly the configured value, whatever list was there -/
+theorem http2_overwrite_one_value (m : H2) (a : Add) (ha : a.append = false) :
+    vals h2 (applyAdd h2 m a) a.name = [a.value] := h2_overwrite_one_value m a ha
+
+/-- overwrite of the request cookies leaves exactly the configured cookies -/
+theorem fasthttp_cookie_overwrite (m : Fh) (v : String) (hv : v ≠ "") :
+    (applyAdd (fh .request) m ⟨"cookie", v, false⟩).cookies = parseCookies v ∧
+    (applyAdd (fh .request) m ⟨"cookie", v, false⟩).h.filter (fun e => e.1 == "Cookie") = [] := fh_cookie_overwrite m v hv
+
+/-- an addition always marks the bolt frame changed (the encoder then re-serialises the header block instead of re-sending
+the raw bytes: the mutation reaches the wire); a removal marks it when it removed something -/
+theorem bolt_addition_marks_changed (m : Bolt) (a : Add) : (applyAdd bolt m a).changed = true := by
+  simp only [Model.HeaderMaps.applyAdd, addStep_eq, HMap.ops, bolt]
+  cases boltGet m a.name <;> simp only <;> (repeat' split) <;> rfl
+
+theorem bolt_removal_marks_changed (m : Bolt) (k : String) (h : m.kvs.any (·.1 == k) = true) :
+    (applyRemove bolt m k).changed = true := by
+  simp [applyRemove, removeStep_eq, HMap.ops, bolt, boltDel, h]
+
+-- non-vacuity: maps meeting the invariants, configurations meeting `hok`
+example : fhInv .request (fhDecode .request [("X-A", "1"), ("x-a", "2"), ("Host", "h"), ("Cookie", "a=1")]) := by
+  constructor
+  · decide
+  · intro h; cases h
+example : fhPlain .request "fOo-bAr" = true ∧ fhPlain .request "host" = true ∧ fhPlain .request "cookie" = false := by decide
+example : boltNoDup ⟨[("service", "s"), ("Service", "S")], false⟩ := by unfold boltNoDup; decide
+-- tests (evaluated): mixed-case removal, dedicated field, repeated line, per instance
+example : fhRange .request (applyRemove (fh .request) (fhDecode .request [("fOo-bAr", "1"), ("FOO-BAR", "2"), ("x-b", "3")]) "foo-bar") = [("X-B", "3")] := by decide
+example : fhRange .request (applyAdd (fh .request) (fhDecode .request [("Host", "h1")]) ⟨"host", "h2", false⟩) = [("Host", "h2")] := by decide
+example : fhRange .request (applyAdd (fh .request) (fhDecode .request [("Host", "h1")]) ⟨"host", "", false⟩) = [] := by decide
+example : fhRange .request (applyAdd (fh .request) (fhDecode .request [("X-A", "1"), ("x-a", "2")]) ⟨"x-a", "n", true⟩) = [("X-A", "1,n"), ("X-A", "2")] := by decide
+example : fhRange .request (applyAdd (fh .request) (fhDecode .request [("X-A", "1"), ("x-a", "2")]) ⟨"x-a", "n", false⟩) = [("X-A", "n")] := by decide
+/-- why the overwrite deletes first: `Set` alone replaces only the first of two lines / adds to the cookies -/
+example : fhRange .request (fhSet .request (fhDecode .request [("X-A", "1"), ("x-a", "2")]) "x-a" "n") = [("X-A", "n"), ("X-A", "2")] := by decide
+example : fhRange .request (fhSet .request (fhDecode .request [("Cookie", "a=1")]) "cookie" "c=3") = [("Cookie", "a=1; c=3")] := by decide
+/-- stated exceptions (KNOWN_FINDINGS, classes x-h2-multi-append / x-bolt-dup-del / x-h1-cookie-append): machine-checked witnesses
+that the multi-valued reference `stepVals` is NOT met there -/
+example : h2Range (applyAdd h2 [("X-A", ["1", "2"])] ⟨"x-a", "n", true⟩) = [("X-A", "1,n")] ∧
+    stepVals ["1", "2"] (.add ⟨"x-a", "n", true⟩) = ["1,n", "2"] := by decide
+example : (applyRemove bolt ⟨[("k", "1"), ("k", "2")], false⟩ "k").kvs = [("k", "2")] ∧ stepVals ["1", "2"] (.remove "k") = [] := by decide
+example : (applyAdd bolt ⟨[("k", "1"), ("k", "2"), ("k", "3")], false⟩ ⟨"k", "n", false⟩).kvs = [("k", "n"), ("k", "3")] := by decide
+example : fhRange .request (applyAdd (fh .request) (fhDecode .request [("Cookie", "a=1")]) ⟨"cookie", "c=3", true⟩) = [("Cookie", "a=1; a=1,c=3")] := by decide
+/-- a response header that still invents a Content-Type (before fix 29096f6e6): the append lands on a value never sent -/
+example : fhGet .response { (fhDecode .response [("x-a", "1")]) with noDefaultCT := false } "content-type" = some "text/plain; charset=utf-8" ∧
+    fhGet .response (fhDecode .response [("x-a", "1")]) "content-type" = none := by decide
+
+end HeaderMapsPart
+
+/-! ### [c17h10] auto_host_rewrite on a STRICT_DNS cluster (third host-rewrite branch; driven through the proxy core by kind `ah`) -/
+section AutoHost
+open MosnVerif.Model.RouteFinalize MosnVerif.Gen.RouteFinalize
+
+/-- **auto_host_rewrite_strict_dns**: with neither `host_rewrite` nor `auto_host_rewrite_header` configured,
+`auto_host_rewrite` on a route whose cluster (snapshot of the cluster manager) is of type STRICT_DNS sets the host variable
+to the hostname of the upstream host selected for the request — whatever host the request arrived with, for every header
+mutation configuration -/
+theorem auto_host_rewrite_strict_dns (r : Route) (s : Req) (h1 : r.cfg.hostRewrite = "") (h2 : r.cfg.autoHostRewriteHeader = "")
+    (h3 : r.cfg.autoHostRewrite = true) (h4 : r.env.hasSnapshot = true) (h5 : r.env.clusterType = strictDNSCluster) :
+    (finalizeRequest r s).host = some r.env.upstreamHostname := by
+  rw [finalize_host_spec]; simp [specHost, h1, h2, h3, h4, h5]
+
+/-- … and leaves it alone on a cluster of any other type, on a route whose cluster has no snapshot, or when switched off -/
+theorem auto_host_rewrite_only_strict_dns (r : Route) (s : Req) (h1 : r.cfg.hostRewrite = "") (h2 : r.cfg.autoHostRewriteHeader = "")
+    (h : r.cfg.autoHostRewrite = false ∨ r.env.hasSnapshot = false ∨ r.env.clusterType ≠ strictDNSCluster) :
+    (finalizeRequest r s).host = s.host := by
+  rw [finalize_host_spec]
+  rcases h with h | h | h <;> simp [specHost, h1, h2, h]
+
+def exAutoRoute (hostname : String) : Route :=
+  { kind := .prefix, matched := "/", cfg := ⟨"", "", false, "", "", true⟩, levels := ⟨⟨[], []⟩, ⟨[], []⟩, ⟨[], []⟩⟩,
+    regexReplace := id, env := ⟨true, "STRICT_DNS", hostname⟩ }
+example : (finalizeRequest (exAutoRoute "h0.up.example") ⟨[], some "/a", some "orig.example"⟩).host = some "h0.up.example" := by decide
+/-- **auto_host_rewrite_per_attempt_partial** — full statement: EVERY upstream attempt carries the hostname of ITS OWN
+selected host. What holds: the first attempt does (theorem above); `doRetry` selects a new host and re-sends what the one
+`FinalizeRequestHeaders` call left, so a retried attempt on host h1 carries h0's name (finding, kind `ah` retry cases).
+Machine-checked negation witness: the value left for host h0 is not the reference for host h1. -/
+theorem auto_host_rewrite_per_attempt_partial (r : Route) (s : Req) :
+    (finalizeRequest r s).host = specHost r s := finalize_host_spec r s
+example : (finalizeRequest (exAutoRoute "h0.up.example") ⟨[], some "/a", none⟩).host ≠
+    specHost (exAutoRoute "h1.up.example") ⟨[], some "/a", none⟩ := by decide
+
+end AutoHost
+
+/-! ## Part 7 [c17pt] — the per-try timeout is armed for EVERY attempt, the last one the budget allows included
+
+`Gen.PerTryArm` (regenerated from pkg/proxy/downstream.go): `armCond` = the full condition under which
+`setupPerReqTimeout` creates the timer (early returns negated, enclosing conditions conjoined), its call sites
+(`onUpstreamRequestSent` for the first attempt, `doRetry` for every retried one), the tests of the timer callback and what
+`onPerReqTimeout` / `onResponseTimeout` hand on. `Model/PerTryArm.lean` evaluates it for every attempt the attempt machine of
+Part 2 creates, on the state `setupPerReqTimeout` sees at that moment (budget left AFTER the retry decision, retry_on, …). -/
+section PerTryTimer
+open MosnVerif.Model.PerTryArm MosnVerif.Gen.PerTryArm MosnVerif.Model.Retry MosnVerif.Gen.RetryState
+
+/-- **per_try_arm_condition_exact**: the regenerated condition under which the per-try timer is created is exactly
+`TryTimeout > 0` — whatever the retry state, the budget left, retry_on, num_retries, the attempt … (a guard on any of them
+makes the regenerated expression differ and this proof fail) -/
+theorem per_try_arm_condition_exact (a : ArmState) : armCond a = decide (a.tryTimeout > 0) := armCond_exact a
+
+/-- both call sites arm: the first complete send of a two-way request, and `doRetry` on either of its routes (global timer
+already armed / not yet), after the request of the new attempt was handed to the upstream stream, with the request's per-try
+timeout as duration -/
+theorem per_try_arm_call_sites :
+    requestSentArms true false = true ∧ (∀ g, doRetryCall g ≠ .none) ∧ doRetryArmsAfterSend = true ∧ armDurationIsTryTimeout = true :=
+  ⟨requestSentArms_two_way, doRetryCall_arms, by decide, by decide⟩
+
+/-- what the timer callback tests before it acts (stream cleaned, generation changed, response slot lost), then `onPerReqTimeout` -/
+theorem per_try_callback_guards :
+    callbackGuards = ["cleaned", "idChanged", "casLost"] ∧ callbackAction = "s.onPerReqTimeout" ∧
+    perTryActsWhen = "!s.downstreamResponseStarted" ∧ perTryResetsUpstream = true := by decide
+
+/-- **per_try_timer_armed_every_attempt**: for EVERY retry policy (retry_on, num_retries, codes, disable), every first host
+selection, EVERY history of outcomes and oracle answers and either state of the global timer at each retry: with an
+effective per-try timeout > 0, every attempt the machine creates — one log entry per `pool.NewStream`, at most
+1 + max 3 num_retries of them — has its per-try timer armed; in particular the LAST attempt the budget allows (created
+with `retiesRemaining = 0`). -/
+theorem per_try_timer_armed_every_attempt (p : Policy) (tryT : Int) (g : Nat → Bool) (host0 : Option Nat) (ls : List Label)
+    (h : tryT > 0) :
+    (armLog p tryT g host0 ls).length = attemptCount (run p host0 ls).trace ∧
+    (∀ b ∈ armLog p tryT g host0 ls, b = true) ∧
+    (armLog p tryT g host0 ls).length ≤ 1 + max 3 p.numRetries := by
+  have hinv := armLog_inv p tryT g h ls
+    (start p host0, if (start p host0).attempts = 1 then [firstArmed armCond (armState p tryT (start p host0))] else [])
+    (by rcases start_attempts p host0 with h0 | h0 <;> simp [h0])
+    (by
+      intro b hb
+      split at hb
+      · simp only [List.mem_singleton] at hb; rw [hb]; exact firstArmed_pos p tryT _ h
+      · simp at hb)
+  simp only at hinv
+  obtain ⟨h1, h2, h3⟩ := hinv
+  have hlen : (armLog p tryT g host0 ls).length = attemptCount (run p host0 ls).trace := by
+    unfold armLog armLogWith
+    simp only
+    rw [h1, h3, (run_good p host0 ls).count]
+    rfl
+  refine ⟨hlen, h2, ?_⟩
+  rw [hlen]
+  exact attempts_bounded p host0 ls
+
+/-- **silent_attempt_bounded_by_try_timeout**: a SILENT attempt number k (no upstream event) whose request was sent at
+`sent` ends at `sent + TryTimeout`, by the per-try timer, whenever that is before the global deadline — for EVERY attempt
+k of every run, the last one included -/
+theorem silent_attempt_bounded_by_try_timeout (p : Policy) (tryT : Int) (g : Nat → Bool) (host0 : Option Nat) (ls : List Label)
+    (h : tryT > 0) (k : Nat) (hk : k < (armLog p tryT g host0 ls).length) (sent deadline : Int) (hd : sent + tryT < deadline) :
+    silentEnd ((armLog p tryT g host0 ls)[k]) sent tryT deadline = (sent + tryT, .perTry) := by
+  have hb := (per_try_timer_armed_every_attempt p tryT g host0 ls h).2.1 _ (List.getElem_mem hk)
+  simp [silentEnd, hb, hd]
+
+/-- tie with `try_below_global`: with the effective timeouts the regenerated `parseProxyTimeout` computes, a silent attempt
+sent when the global timer starts (the first one) ALWAYS ends by its per-try timer: an enabled per-try timeout is below the
+global one -/
+theorem silent_attempt_within_effective_timeouts (parseInt : String → Option Int) (g0 t0 : Int) (hasRoute : Bool) (rg rt : Int)
+    (hT hG vT vG : Option String) (sent : Int)
+    (hpos : (parseProxyTimeout parseInt g0 t0 hasRoute rg rt hT hG vT vG).2 > 0) :
+    silentEnd true sent (parseProxyTimeout parseInt g0 t0 hasRoute rg rt hT hG vT vG).2
+        (sent + (parseProxyTimeout parseInt g0 t0 hasRoute rg rt hT hG vT vG).1) =
+      (sent + (parseProxyTimeout parseInt g0 t0 hasRoute rg rt hT hG vT vG).2, .perTry) := by
+  have hb := try_below_global parseInt g0 t0 hasRoute rg rt hT hG vT vG
+  simp only at hb
+  have : sent + (parseProxyTimeout parseInt g0 t0 hasRoute rg rt hT hG vT vG).2 <
+      sent + (parseProxyTimeout parseInt g0 t0 hasRoute rg rt hT hG vT vG).1 := by
+    rcases hb with hb | hb <;> omega
+  simp [silentEnd, this]
+
+/-- **last_attempt_reply_is_per_try**: the per-try timer firing on an attempt with no retry left (budget exhausted) is
+answered at once with the timeout status 504, for the reset reason `UpstreamPerTryTimeout` that `onPerReqTimeout` hands on
+(response flag UpstreamRequestTimeout) — not the global timer's `UpstreamGlobalTimeout` -/
+theorem last_attempt_reply_is_per_try (p : Policy) (s : St) (c : Bool) (hst : Option Nat)
+    (hl : s.live = true) (ht : p.tryTimeout = true) (hr : s.remaining = 0) (hloops : s.loops ≠ 0) :
+    (step p s ⟨.perTry, c, hst⟩).trace = s.trace ++ [.outcome .perTry, .reply timeoutExceptionCode] ∧
+    reasonOf .perTry = perTryReason ∧ perTryReason ≠ globalReason ∧ perTryFlag = "UpstreamRequestTimeout" := by
+  refine ⟨?_, by decide, by decide, by decide⟩
+  have hcode : convertReasonToCode upstreamPerTryTimeout = timeoutExceptionCode := by decide
+  have hsr : ∀ chk cc, shouldRetry 0 chk cc = (rcNoRetry, 0) := by intro chk cc; simp [shouldRetry]
+  have hno : resetRetryCond (retry rcNoRetry) = false := by decide
+  unfold step
+  simp only [hl, ht, Bool.true_eq_false, and_false, if_false]
+  unfold stepReset
+  simp only [reasonOf]
+  by_cases hg : resetGuard upstreamPerTryTimeout s.started s.hasRS = true
+  · simp only [hg, if_true, retryCall, hr, hsr, hno, Bool.false_eq_true, if_false]
+    unfold hijack
+    simp [hloops, hcode, List.append_assoc]
+  · simp only [hg, if_false]
+    unfold hijack
+    simp [hloops, hcode, List.append_assoc]
+
+-- non-vacuity / tests: floor budget 3 (num_retries 0), three refused connects, then the LAST attempt
+def exPtPolicy : Policy := { retryOn := false, numRetries := 0, codes := [], tryTimeout := true, disable := false }
+def exPtFails : List Label := [⟨.poolConnFail, true, some 1⟩, ⟨.connFail, true, some 0⟩, ⟨.poolConnFail, true, some 1⟩]
+example : armLog exPtPolicy 60000000 (fun _ => true) (some 0) exPtFails = [true, true, true, true] := by decide
+example : (run exPtPolicy (some 0) exPtFails).remaining = 0 ∧ (run exPtPolicy (some 0) exPtFails).live = true := by decide
+example : silentEnd true 45 60 1200 = (105, .perTry) := by decide
+/-- negation witness for the budget-guarded variant (`if retryState != nil && retiesRemaining == 0 { return }`): the LAST
+attempt gets no timer and a silent upstream holds it until the global deadline -/
+example : (armLogWith armCondBudgetGuarded exPtPolicy 60000000 (fun _ => true) (some 0) exPtFails).2 = [true, true, true, false] := by decide
+example : silentEnd false 45 60 1200 = (1200, .global) := by decide
+example : ∃ a : ArmState, a.tryTimeout > 0 ∧ armCondBudgetGuarded a ≠ decide (a.tryTimeout > 0) :=
+  ⟨{ tryTimeout := 1, hasRetryState := true, retiesRemaining := 0 }, by decide⟩
+
+end PerTryTimer
 
 end MosnVerif.Props.C17
